@@ -30,7 +30,7 @@ META = dict(
          "ended by a jesse exception is judged as a prefix. Model: fee 0, one symbol, wallet relative to the cycle start.",
     design_ref="4/C06")
 
-KINDS_Q = ["ladder", "over", "two", "half", "near", "wrong", "tf5", "fast", "ladder", "half"]
+KINDS_Q = ["ladder", "over", "sized", "half", "near", "wrong", "tf5", "fast", "two", "sized"]
 
 
 def run(ctx):
